@@ -576,6 +576,10 @@ impl ReplicaProp {
             let mut last_voted_proposal: Option<Value> = None;
             let mut certified: std::collections::HashMap<u64, (u64, u64)> = Default::default();
             let mut pending: std::collections::VecDeque<Value> = Default::default();
+            // warm-up: in half of the cases the first 1-4 views run the happy path (the right leader proposes a fresh block on
+            // top of what the replica holds, the replica votes, the commit certificate for that vote arrives), so that the
+            // finalisation path hands real blocks to the store before the random part starts
+            let mut happy: u32 = if self.mode != Mode::Flood && rng.gen_bool(0.5) { rng.gen_range(1..5) } else { 0 };
             for _ in 0..steps {
                 if let Some(op) = pending.pop_front() {
                     let (op, obs) = self.exec_full(&op, out);
@@ -587,6 +591,48 @@ impl ReplicaProp {
                 let base_n = snap.high_commit_qc.as_ref().map_or(first, |q| q.header().number.0 + 1);
                 let table = self.leader_table.clone();
                 let mut g = Gen { leader_table: &table, certified: &mut certified, rng: &mut rng, n, weights: weights.clone(), me };
+                if happy > 0 {
+                    let hc_view = snap.high_commit_qc.as_ref().map(|q| q.view().number.0);
+                    let op = if cur == 0 && snap.phase != v2::Phase::Timeout {
+                        Some(json!({"op":"tick","crash":Value::Null}))
+                    } else if cur == 0 {
+                        let signers = g.quorum_set();
+                        let tq = atqc(n, aview(0), &[(ATVote { view: aview(0), hv: None, hq: None }, signers)]);
+                        Some(json!({"op":"msg","from":g.rng.gen_range(0..n),"sig_ok":true,"msg":{"newview":AJust::Timeout(tq)}}))
+                    } else if snap.phase == v2::Phase::Prepare {
+                        let prev = cur - 1;
+                        let just = match hc_view {
+                            Some(v) if v == prev && g.certified.contains_key(&v) => AJust::Commit(g.valid_cqc(v, 0, 0)),
+                            _ => {
+                                let hq = hc_view.filter(|v| g.certified.contains_key(v)).map(|v| g.valid_cqc(v, 0, 0));
+                                let signers = g.quorum_set();
+                                AJust::Timeout(atqc(n, aview(prev), &[(ATVote { view: aview(prev), hv: None, hq }, signers)]))
+                            }
+                        };
+                        fresh += 1;
+                        if !payload_ok(fresh) { fresh += 1; }
+                        happy -= 1;
+                        Some(json!({"op":"msg","from":g.leader(cur),"sig_ok":true,"msg":{"proposal":{"payload":fresh,"just":just}},"crash":Value::Null}))
+                    } else {
+                        happy = 0;
+                        None
+                    };
+                    if let Some(op) = op {
+                        out.count("warmup_step");
+                        let (op, obs) = self.exec_full(&op, out);
+                        // the commit certificate for the vote just cast
+                        if let Some((v, bn, h)) = obs["effects"].as_array().and_then(|effs| effs.iter().find_map(|e| { let cv = e.get("send")?.get("commit")?; Some((cv["view"]["v"].as_u64()?, cv["n"].as_u64()?, cv["h"].as_u64()?)) })) {
+                            let table = self.leader_table.clone();
+                            let mut g = Gen { leader_table: &table, certified: &mut certified, rng: &mut rng, n, weights: weights.clone(), me };
+                            let q = g.valid_cqc(v, bn, h);
+                            if q.vote.n == bn && q.vote.h == h {
+                                pending.push_back(json!({"op":"msg","from":g.rng.gen_range(0..n),"sig_ok":true,"msg":{"newview":AJust::Commit(q)}}));
+                            }
+                        }
+                        out.emit(op, obs);
+                        continue;
+                    }
+                }
                 let roll = g.rng.gen_range(0..100);
                 let crash = if self.mode == Mode::Crash && g.rng.gen_bool(0.35) {
                     json!({"at": g.rng.gen_range(0..2), "applied": g.rng.gen_bool(0.5)})
